@@ -58,6 +58,8 @@ const (
 	opLock
 	opOnce
 	opQuiesce
+	opRLock
+	opWLock
 )
 
 type selCase struct {
@@ -122,6 +124,7 @@ type concState struct {
 	atomVC map[*Value][]int
 	races  []string
 	pools  map[*Value][]Value
+	rw     map[*Value]*rwState
 	sleep  []transition
 }
 
@@ -491,7 +494,7 @@ func (in *Interp) opTouches(p *pendingOp, ci int) []touch {
 				o = append(o, touch{c.ch, false})
 			}
 		}
-	case opLock:
+	case opLock, opRLock, opWLock:
 		o = append(o, touch{p.mu, true})
 	case opOnce:
 		o = append(o, touch{p.mu, in.conc.onceSt[p.mu] != 2})
@@ -656,6 +659,14 @@ func (in *Interp) enabled() []transition {
 			if cs.onceSt[p.mu] != 1 {
 				ts = append(ts, transition{g: g, ci: -1})
 			}
+		case opRLock:
+			if st := in.rw(p.mu); !st.writer && st.waiting == 0 {
+				ts = append(ts, transition{g: g, ci: -1})
+			}
+		case opWLock:
+			if st := in.rw(p.mu); !st.writer && st.readers == 0 {
+				ts = append(ts, transition{g: g, ci: -1})
+			}
 		}
 	}
 	return ts
@@ -734,6 +745,8 @@ func (in *Interp) fire(t transition) {
 		in.makeReady(g)
 	case opOnce:
 		g.acquire(cs.onceVC[p.mu])
+		in.makeReady(g)
+	case opRLock, opWLock:
 		in.makeReady(g)
 	}
 }
@@ -1119,6 +1132,105 @@ func init() {
 	}
 	intrinsics[vrtPkg+".RaceOn"] = func(in *Interp, fr *frame, a []Value) (Value, bool) {
 		in.raceOff--
+		return nil, true
+	}
+}
+
+// sort.Slice / sort.SliceStable reach the slice through reflection; here a
+// stable insertion sort swaps the elements of the slice value directly and
+// asks the caller's less function (whose answers may be symbolic: the
+// comparison forks like any other branch).
+func init() {
+	sorter := func(in *Interp, fr *frame, a []Value) (Value, bool) {
+		ifc, ok := a[0].(Iface)
+		if !ok {
+			return nil, false
+		}
+		sl, ok := ifc.V.([]Value)
+		if !ok {
+			return nil, false
+		}
+		less := a[1]
+		for i := 1; i < len(sl); i++ {
+			for j := i; j > 0; j-- {
+				r := in.call(fr, token.NoPos, less, []Value{mkInt(uint64(j), 64), mkInt(uint64(j-1), 64)})
+				if !in.truth(r) {
+					break
+				}
+				sl[j], sl[j-1] = sl[j-1], sl[j]
+			}
+		}
+		return nil, true
+	}
+	intrinsics["sort.Slice"] = sorter
+	intrinsics["sort.SliceStable"] = sorter
+}
+
+// ---- sync.RWMutex ---------------------------------------------------------
+// Readers, one writer, and Go's writer preference: a Lock that is waiting
+// keeps new readers out (which is what makes recursive read-locking a
+// deadlock). Lock is two visible steps: announce, then acquire.
+
+type rwState struct {
+	readers int
+	writer  bool
+	waiting int
+	vc      []int
+}
+
+func (in *Interp) rw(mu *Value) *rwState {
+	if in.conc == nil {
+		in.concInit()
+	}
+	if in.conc.rw == nil {
+		in.conc.rw = map[*Value]*rwState{}
+	}
+	st := in.conc.rw[mu]
+	if st == nil {
+		st = &rwState{}
+		in.conc.rw[mu] = st
+	}
+	return st
+}
+
+func init() {
+	intrinsics["(*sync.RWMutex).RLock"] = func(in *Interp, fr *frame, a []Value) (Value, bool) {
+		mu := a[0].(*Value)
+		st := in.rw(mu)
+		g := in.visible(&pendingOp{kind: opRLock, mu: mu, where: "RWMutex.RLock at " + fr.where()})
+		st.readers++
+		g.acquire(st.vc)
+		return nil, true
+	}
+	intrinsics["(*sync.RWMutex).RUnlock"] = func(in *Interp, fr *frame, a []Value) (Value, bool) {
+		mu := a[0].(*Value)
+		st := in.rw(mu)
+		if st.readers == 0 {
+			panic(targetPanic{Iface{T: in.prog.runtimeErrorString, V: "sync: RUnlock of unlocked RWMutex"}})
+		}
+		st.readers--
+		in.conc.cur.release(&st.vc)
+		return nil, true
+	}
+	intrinsics["(*sync.RWMutex).Lock"] = func(in *Interp, fr *frame, a []Value) (Value, bool) {
+		mu := a[0].(*Value)
+		st := in.rw(mu)
+		in.visible(&pendingOp{kind: opYield, obj: mu, where: "RWMutex.Lock (announce) at " + fr.where()})
+		st.waiting++
+		g := in.visible(&pendingOp{kind: opWLock, mu: mu, where: "RWMutex.Lock at " + fr.where()})
+		st.waiting--
+		st.writer = true
+		g.acquire(st.vc)
+		return nil, true
+	}
+	intrinsics["(*sync.RWMutex).Unlock"] = func(in *Interp, fr *frame, a []Value) (Value, bool) {
+		mu := a[0].(*Value)
+		st := in.rw(mu)
+		if !st.writer {
+			panic(targetPanic{Iface{T: in.prog.runtimeErrorString, V: "sync: Unlock of unlocked RWMutex"}})
+		}
+		st.writer = false
+		in.conc.cur.release(&st.vc)
 		return nil, true
 	}
 }
